@@ -44,9 +44,13 @@ class YieldingLock(object):
         if self.on:
             time.sleep(0.0002 if self._rng.random() < 0.7 else 0.0)
 
-    def acquire(self, *a, **k):
+    def acquire(self, blocking=True, timeout=-1):
         self._yield()
-        return self._l.acquire(*a, **k)
+        if blocking and timeout is not None and timeout > 0:
+            # a bounded wait is measured on the frontend's clock (FastClock in run(): 100 x faster), so that code
+            # which gives up waiting for the lock and goes on to the driver is reached by the long-call scenario
+            timeout = max(timeout / 100.0, 0.001)
+        return self._l.acquire(blocking, timeout)
 
     def release(self):
         self._l.release()
